@@ -107,7 +107,25 @@ func (m *tmodel) count() int {
 }
 
 func init() {
-	Register(&Prop{ID: "C13", Run: runC13})
+	Register(&Prop{ID: "C13", Run: runC13, Probes: []Probe{{
+		Key:  "coalesce-at-minimum-timestamp",
+		Desc: "two intervals of one atom that start at the smallest timestamp (as a timestamp, not as 'unbounded'), one inside the other: Coalesce must leave one interval",
+		Run: func(r *simrt.Run) Outcome {
+			ts := func(n int64) ast.TemporalBound { return ast.TemporalBound{Type: ast.TimestampBound, Timestamp: n} }
+			st := factstore.NewTemporalStore()
+			a := ast.NewAtom("p", ast.Number(1))
+			st.Add(a, ast.Interval{Start: ts(math.MinInt64), End: ts(math.MinInt64 + 5)})
+			st.Add(a, ast.Interval{Start: ts(math.MinInt64), End: ts(10)})
+			if err := st.Coalesce(a.Predicate); err != nil {
+				return Violation("C13/coalesce-error", "Coalesce = %v", err)
+			}
+			n := 0
+			st.GetAllFacts(ast.NewQuery(a.Predicate), func(factstore.TemporalFact) error { n++; return nil })
+			if n != 1 {
+				return Violation("C13/coalesce-overlap", "after Coalesce p(1) still has %d intervals although [min, min+5] lies inside [min, 10]", n)
+			}
+			return Outcome{}
+		}}}})
 }
 
 func drawInterval(r *simrt.Run, label string) iv {
@@ -293,9 +311,13 @@ func runC13(r *simrt.Run, tier Tier) Outcome {
 				if added {
 					return fail("C13/duplicate-added", "Add(%s, %s) returned true for an exact duplicate", k, i)
 				}
-				// at the limit an error is acceptable too, below it the duplicate must be refused quietly
-				if err != nil && !(effLimit > 0 && len(m.ivs[k]) >= effLimit) {
+				// a duplicate is refused quietly, also when its atom is at the limit
+				// (nothing would be stored, so there is nothing for the limit to refuse)
+				if err != nil {
 					return fail("C13/duplicate-error", "Add(%s, %s) of an exact duplicate returned error %v", k, i, err)
+				}
+				if effLimit > 0 && len(m.ivs[k]) >= effLimit {
+					r.Probe("exact-duplicate-at-the-limit")
 				}
 			case effLimit > 0 && len(m.ivs[k]) >= effLimit:
 				r.Fault("interval-limit-hit")
@@ -452,6 +474,13 @@ func runC13(r *simrt.Run, tier Tier) Outcome {
 		case 7: // range query
 			f := pick("c13.during")
 			qi := drawInterval(r, "c13.during.iv")
+			inverted := false
+			if qi.lo != negInf && qi.hi != posInf && qi.lo < qi.hi && r.OneIn(8, "c13.during.inverted") {
+				// a range that ends before it starts contains no instant
+				qi.lo, qi.hi = qi.hi, qi.lo
+				inverted = true
+				r.Probe("inverted-range-query")
+			}
 			q, cons := patternOf(r, f, "c13.during.pat")
 			got, err := scan(q, 2, 0, qi)
 			trace = append(trace, fmt.Sprintf("GetFactsDuring(%v, %s) -> %d, %v", q, qi, len(got), err))
@@ -465,7 +494,7 @@ func runC13(r *simrt.Run, tier Tier) Outcome {
 					continue
 				}
 				for _, i := range l {
-					if i.intersects(qi) {
+					if !inverted && i.intersects(qi) {
 						want[k+"@"+i.String()] = 1
 						if i.hi == qi.lo || i.lo == qi.hi {
 							r.Probe("range-query-touching-end")
@@ -529,11 +558,7 @@ func runC13(r *simrt.Run, tier Tier) Outcome {
 			// a duplicate pair arriving while its atom is at the limit may be
 			// answered by the limit error instead of a quiet refusal
 			mayErr := false
-			for k := range dupAt {
-				if effLimit > 0 && cnt[k] >= effLimit {
-					mayErr = true
-				}
-			}
+			_ = dupAt
 			if !exceed && !(mayErr && err != nil) {
 				if err != nil {
 					return fail("C13/merge-error", "Merge returned %v although no atom exceeds the limit", err)
